@@ -67,7 +67,8 @@ type mstate struct {
 	ID    [3]int64
 }
 
-func (s mstate) total() int32 { return s.Count[0] + s.Count[1] + s.Count[2] }
+// total: the specification counts in unbounded integers (int64 is enough for three int32s)
+func (s mstate) total() int64 { return int64(s.Count[0]) + int64(s.Count[1]) + int64(s.Count[2]) }
 func (s mstate) key() string  { return fmt.Sprint(s) }
 
 // step returns the possible successor states given the observed output.
@@ -86,7 +87,7 @@ func step(s mstate, in opIn, out opOut, spurious bool) []mstate {
 		s.ID[in.Inst] = 0
 		return []mstate{s}
 	case "dump":
-		if out.Count != s.total() || out.Per != s.Count || out.Max != s.Max {
+		if int64(out.Count) != s.total() || out.Per != s.Count || out.Max != s.Max {
 			return nil
 		}
 		return []mstate{s}
@@ -111,12 +112,12 @@ func step(s mstate, in opIn, out opOut, spurious bool) []mstate {
 		applied.Count[i] = in.Cur
 		var res []mstate
 		// applied: the answer must name the reported value
-		fits := delta <= 0 || applied.total() <= s.Max
+		fits := delta <= 0 || applied.total() <= int64(s.Max)
 		if fits && out.Latest == in.Cur {
 			// accept flag: the code answers "not accepted, limit=current" at the exact limit although the count is
 			// recorded; the statement leaves the flag open at/above the limit, and overlapping operations may see a
 			// transient total, so only "accepted below the limit" is demanded in the sequential comparison.
-			atOrAbove := applied.total() >= s.Max && in.Cur > 0
+			atOrAbove := applied.total() >= int64(s.Max) && in.Cur > 0
 			if out.Accept || atOrAbove || spurious || delta == 0 {
 				res = append(res, applied)
 			}
@@ -303,7 +304,7 @@ type sysB struct {
 
 func specB() xstate.Spec {
 	maxes := []int32{2, 5, 8, 0} // (0: an edit to "nothing may be in flight" is an edit like any other)
-	curs := []int32{0, 1, 3, 5, 6}
+	curs := []int32{0, 1, 3, 5, 6, 2147483647} // (the count is a client-supplied int32: its largest value is a report like any other)
 	return xstate.Spec{
 		Name: "seq-maxinflight",
 		New:  func() interface{} { return &sysB{fc: newMIF(5), m: mstate{Max: 5}} },
@@ -360,7 +361,7 @@ func specB() xstate.Spec {
 			}
 			sys.m = next[0]
 			d := dump(sys.fc)
-			if d.Count != sys.m.total() || d.Per != sys.m.Count || d.Max != sys.m.Max {
+			if int64(d.Count) != sys.m.total() || d.Per != sys.m.Count || d.Max != sys.m.Max {
 				return fmt.Errorf("%s: after %s (answer %+v) recorded state is count=%d per=%v max=%d, specification says count=%d per=%v max=%d",
 					classify(sys.m, in, out), in, out, d.Count, d.Per, d.Max, sys.m.total(), sys.m.Count, sys.m.Max)
 			}
@@ -463,7 +464,7 @@ func specPath() xstate.Spec {
 				return fmt.Errorf("request-path/no-flowcontrol: the server holds no counter for the schema")
 			}
 			d := dump(fc)
-			if d.Count != sys.m.total() || d.Per != sys.m.Count || d.Max != sys.m.Max {
+			if int64(d.Count) != sys.m.total() || d.Per != sys.m.Count || d.Max != sys.m.Max {
 				return fmt.Errorf("request-path/%s: after %s (answer %+v) the server records count=%d per=%v max=%d, the specification says count=%d per=%v max=%d",
 					classify(sys.m, in, out), in, out, d.Count, d.Per, d.Max, sys.m.total(), sys.m.Count, sys.m.Max)
 			}
@@ -489,7 +490,7 @@ func classify(m mstate, in opIn, out opOut) string {
 		switch {
 		case out.Err != "" || in.ID > 0 && in.ID <= m.ID[in.Inst]:
 			return "request-id"
-		case delta < 0 && m.total() > m.Max:
+		case delta < 0 && m.total() > int64(m.Max):
 			return "decrease-refused-above-lowered-limit"
 		case delta < 0:
 			return "decrease-not-applied"
@@ -506,7 +507,7 @@ func tokenBucket(c *ev.Check, maxLen int) {
 	type cfg struct{ qps, burst int32 }
 	// incl. burst < qps and burst 0 (validation admits both), and a limit change in the middle (steps beyond asks+advs)
 	cfgs := []cfg{{1, 1}, {1, 3}, {2, 2}, {4, 8}, {2, 5}, {4, 2}, {8, 1}, {3, 0}}
-	asks := []int32{0, 1, 2, 5, 9, 100}
+	asks := []int32{0, 1, 2, 5, 9, 100, 2147483647}
 	advs := []time.Duration{125 * time.Millisecond, 500 * time.Millisecond, time.Second, 10 * time.Second}
 	resizes := []cfg{{8, 2}, {2, 6}}
 	nsteps := len(asks) + len(advs) + len(resizes)
